@@ -48,11 +48,44 @@ PLUMBING = {
 }
 
 
+def limit_errors_keep_their_variant(prog, chk):
+    """a limit error travels up to process_tags as the variant it was raised as: no library function on the way maps
+    the error of a call that may carry one (map_err / or_else with a closure that builds another SvgdxError without
+    looking at the variant).  A wrapped limit error is an ordinary failure to process_tags: the element is queued for
+    retry and the limit-exhausting work is done again at every level of nesting."""
+    makers, carriers = may_carry_limit_error(prog)
+    n = 0
+    for body in prog.bodies.values():
+        if body.unit != "svgdx-lib" or body.path.startswith(("svgdx::server::", "svgdx::cli::", "svgdx::transform_str", "svgdx::transform_file", "svgdx::transform_string")):
+            continue
+        for (bb, t, c) in body.call_sites(lambda c: True):
+            tg = [x.id for x in prog.targets_of_callee(c)]
+            if not any(x in carriers for x in tg) or not t.get("dest") or t["dest"][1]:
+                continue
+            n += 1
+            for (ub, ui, node, how, _cast) in R.forward_value_uses(body, t["dest"][0], 8):
+                if ui != R.TERM or node.get("k") != "call" or "fn" not in node:
+                    continue
+                mc = Callee(node["fn"])
+                if mc.path.split("::")[-1] not in ("map_err", "or_else") or "Result" not in mc.path or len(node["args"]) < 2:
+                    continue
+                cid = R.closure_id_of_operand(body, node["args"][1])
+                cb = prog.bodies.get(cid) if cid is not None else None
+                if cb is None:
+                    continue
+                builds = sorted({st["rv"].get("variant") for x, i, st in cb.all_stmts() if st.get("rv", {}).get("k") == "aggr" and st["rv"].get("adt") == ERR and st["rv"].get("variant")})
+                looks = any(R.switch_discr_place(cb, x) is not None and ERR in str(R.switch_discr_place(cb, x)[1]) for x in cb.reachable)
+                if builds and not looks:
+                    chk.bad("A13.limit-final", f"{body.short}:{c.path.split('::')[-1]}:re-wrapped", body.where(ub, node.get("line")), f"{body.short} maps the error of {c.path} - which may be a LoopLimitError / VarLimitError / DepthLimitExceeded - into SvgdxError::{'/'.join(builds)} without looking at its variant: process_tags no longer recognises the limit, queues the element for retry and the limit-exhausting body runs again (at every enclosing level)")
+    chk.floor("A13.limit-final:carriers", n, 20, "call of a function that may return a limit error")
+
+
 def run(prog, chk):
     single_dispatch_entry(prog, chk)
     limit_predicates(prog, chk)
     depth_pairing(prog, chk)
     limit_errors_final(prog, chk)
+    limit_errors_keep_their_variant(prog, chk)
     limits_wiring(prog, chk)
     scope_var_limit(prog, chk)
     depth_test_unconditional(prog, chk)
